@@ -309,6 +309,16 @@ def _open_call_token(
     aad: bytes,
     token_ttl: int = 0,
 ) -> tuple[bytes, str, bytes, bytes, bytes, str]:
+    """Open and verify a call token (see :func:`_open_call_token_created`, minus the creation time)."""
+    return _open_call_token_created(token, token_key, aad, token_ttl)[:6]
+
+
+def _open_call_token_created(
+    token: bytes,
+    token_key: bytes,
+    aad: bytes,
+    token_ttl: int = 0,
+) -> tuple[bytes, str, bytes, bytes, bytes, str, int]:
     """Open and verify a call token.
 
     Args:
@@ -319,7 +329,9 @@ def _open_call_token(
 
     Returns:
         ``(call_state_bytes, call_state_type, schema_bytes, input_schema_bytes,
-        call_id, stream_id)``
+        call_id, stream_id, created_at)`` — ``created_at`` is the token's
+        baked-in creation time, which bounds how long anything derived from
+        the token may be cached.
 
     Raises:
         _RpcHttpError: On malformed, tampered, expired, or cross-principal
@@ -358,10 +370,9 @@ def _open_call_token(
     if payload_end != len(plaintext):
         raise _RpcHttpError(RuntimeError("Malformed call token"), status_code=HTTPStatus.BAD_REQUEST)
 
-    if token_ttl > 0:
-        created_at = struct.unpack_from("<Q", plaintext, 0)[0]
-        if int(time.time()) - created_at > token_ttl:
-            raise _RpcHttpError(RuntimeError("Call token expired"), status_code=HTTPStatus.BAD_REQUEST)
+    created_at: int = struct.unpack_from("<Q", plaintext, 0)[0]
+    if token_ttl > 0 and int(time.time()) - created_at > token_ttl:
+        raise _RpcHttpError(RuntimeError("Call token expired"), status_code=HTTPStatus.BAD_REQUEST)
 
     return (
         call_state_bytes,
@@ -370,6 +381,7 @@ def _open_call_token(
         input_schema_bytes,
         call_id,
         stream_id_bytes.decode(),
+        created_at,
     )
 
 
@@ -453,11 +465,24 @@ class _CallStateCache:
             self._entries.move_to_end(key)
             return resolved
 
-    def put(self, call_id: bytes, auth: AuthContext | None, resolved: _ResolvedCall, now: float) -> None:
-        """Record ``resolved`` under ``call_id``, evicting the oldest if full."""
+    def put(
+        self,
+        call_id: bytes,
+        auth: AuthContext | None,
+        resolved: _ResolvedCall,
+        now: float,
+        expires_at: float | None = None,
+    ) -> None:
+        """Record ``resolved`` under ``call_id``, evicting the oldest if full.
+
+        ``expires_at`` ties the entry to the lifetime of the call token that
+        justifies it, so a hit never serves a request that a worker with a
+        cold cache would reject as expired.  ``None`` (token expiry disabled)
+        falls back to ``now + ttl``.
+        """
         key = (call_id, self._identity(auth))
         with self._lock:
-            self._entries[key] = (now + self._ttl, resolved)
+            self._entries[key] = (now + self._ttl if expires_at is None else expires_at, resolved)
             self._entries.move_to_end(key)
             while len(self._entries) > self._max_entries:
                 self._entries.popitem(last=False)
